@@ -84,3 +84,8 @@ claim("C06", "effect analysis over the call graph (who-may-touch the scheduler's
       "Decides: the interrupt-callable closure never touches the scheduler lists, current or state; fibre_run_atomic publishes before reporting success and fibre_eventq_send always wakes after publishing; the main-context entry points drain before touching a list; the drain is complete and reads slots before releasing them; the message-queue flag protocol cannot erase a send; the fast path and the wake-up time both account for the atomic queue.",
       "Absence of lost or duplicated wake-ups under every placement of interrupts is NOT decided (interleavings cannot be enumerated statically); these are necessary conditions with a concrete failing placement when broken. Trusted as for C01.",
       "DESIGN.md section 2 C06")
+claim("C09", "per-path structural rules over list.c's IR (clear-on-unlink, tail on end-insertion, tail on removal, comparator polarity, iterator coherence)",
+      "other",
+      "Decides necessary structural clauses of the sequence behaviour on every path of every list function: an unlinked node's next is cleared; a node stored where the chain ends (or where emptiness was not tested) becomes the tail; removal through an iterator fixes the tail; sorted insertion is stable; list_iterate/next/contains/remove keep the iterator on the documented element, also on a miss. Each has a concrete failing operation sequence when broken.",
+      "Equality with an abstract sequence after arbitrary operation histories is a heap-shape property and is NOT decided (no shape analysis is attempted); behaviour of iterators used past the end is not decided. Trusted: clang 14 front end, ir2json, path/segment enumerator.",
+      "DESIGN.md section 2 C09")
